@@ -6,10 +6,13 @@ Line-protocol driver for the engine model (C01, C03, C06, C07, C08).
   round K…                → "v1 v2 … |[ execs…| X]"
 Arguments: toggle names (f1 f2 f3) switch the model from as-is to repaired behaviour;
 `core` runs the core model (QbiceVerif.Model.EngineCore) instead, answering "skip" for cases
-outside its fragment.
+outside its fragment.  `cyc` runs the fresh-evaluation cycle model (QbiceVerif.Model.Cycle, the one
+the C06 theorems are about): it answers the first session of a case and every round up to the
+second session (single-epoch evaluation from the empty store) and "skip" afterwards.
 -/
 import QbiceVerif.Model.Engine
 import QbiceVerif.Model.EngineCore
+import QbiceVerif.Model.Cycle
 open Qbice.Engine
 
 inductive Expr where
@@ -53,6 +56,24 @@ def Expr.toProg : Expr → (Int → Prog) → Prog
   | .ifEq e n a b, k => e.toProg fun x => if x = n then a.toProg k else b.toProg k
   | .sumAll ks, k => .askAll ks fun vs => k (vs.foldl (· + ·) 0)
 
+/-- inside the fragment of the cycle model: no unordered groups, no world cells -/
+def Expr.cycFragment : Expr → Bool
+  | .const _ => true
+  | .read _ => true
+  | .world _ => false
+  | .sumAll _ => false
+  | .add a b => a.cycFragment && b.cycFragment
+  | .ifEq e _ a b => e.cycFragment && a.cycFragment && b.cycFragment
+
+/-- compile to the executor type of the cycle model (left-to-right evaluation) -/
+def Expr.toCyc : Expr → (Int → Qbice.Cycle.Prog) → Qbice.Cycle.Prog
+  | .const n, k => k n
+  | .read x, k => .ask x k
+  | .world _, k => k 0          -- outside the fragment (never run)
+  | .sumAll _, k => k 0         -- outside the fragment (never run)
+  | .add a b, k => a.toCyc fun x => b.toCyc fun y => k (x + y)
+  | .ifEq e n a b, k => e.toCyc fun x => if x = n then a.toCyc k else b.toCyc k
+
 def Expr.hasUnordered : Expr → Bool
   | .sumAll _ => true
   | .add a b => a.hasUnordered || b.hasUnordered
@@ -74,10 +95,12 @@ partial def parseWrites : List String → Option (List Write)
   | "refresh" :: r => do pure (.refresh :: (← parseWrites r))
   | _ => none
 
-def showErr : Err → String
+/-- the driver prints error classes; with the argument `msg` it appends the model's message (used by
+    the C06 plugin to tell the different hangs apart; never compared with the implementation) -/
+def showErr (msg : Bool) : Err → String
   | .outOfFuel => "crash outOfFuel"
-  | .panic _ => "crash panic"
-  | .deadlock _ => "crash hang"
+  | .panic m => "crash panic" ++ (if msg then " [" ++ m ++ "]" else "")
+  | .deadlock m => "crash hang" ++ (if msg then " [" ++ m ++ "]" else "")
   | .badOp m => s!"bad-op {m}"
 
 def showSetRes : SetRes → String
@@ -98,11 +121,17 @@ structure DS where
   -- core model
   coreOk : Bool := true
   cst : Qbice.Core.St := {}
+  -- cycle model
+  cycOk : Bool := true
+  kinds : List Kind := []
+  sessions : Nat := 0
+  inputs : List (Nat × Int) := []
+  cyst : Qbice.Cycle.St := {}
 
 def execsStr (unordered : Bool) (log : List Nat) : String :=
   if unordered then " X" else String.join ((sortNat log).map fun k => s!" {k}")
 
-def stepFull (t : Toggles) (d : DS) (toks : List String) : DS × String :=
+def stepFull (t : Toggles) (msg : Bool) (d : DS) (toks : List String) : DS × String :=
   match toks with
   | "case" :: _ => ({ unordered := toks.contains "unordered" }, "case")
   | "node" :: k :: kind :: dflt :: rest =>
@@ -115,17 +144,17 @@ def stepFull (t : Toggles) (d : DS) (toks : List String) : DS × String :=
     match parseWrites rest with
     | none => (d, "bad-op")
     | some ws =>
-      match (session d.prog ws).run { d.st with log := [] } with
+      match runM (session d.prog ws) { d.st with log := [] } with
       | .ok (rs, st) => ({ d with st := st }, " ".intercalate (rs.map showSetRes) ++ " |" ++ execsStr d.unordered st.log)
-      | .error e => (d, showErr e)
+      | .error e => (d, showErr msg e)
   | "round" :: rest =>
     match rest.mapM String.toNat? with
     | none => (d, "bad-op")
     | some ks =>
-      match (round t d.prog ks).run { d.st with log := [] } with
-      | .ok (vs, st) => ({ d with st := st }, " ".intercalate (vs.map toString) ++ " |" ++ execsStr d.unordered st.log
+      match runM' (round t d.prog ks) { d.st with log := [] } with
+      | (.ok vs, st) => ({ d with st := st }, " ".intercalate (vs.map toString) ++ " |" ++ execsStr d.unordered st.log
           ++ (if st.choicePoints > 0 then " ~" else ""))
-      | .error e => (d, showErr e)
+      | (.error e, st) => (d, showErr msg e ++ (if st.choicePoints > 0 then " ~" else ""))
   | _ => (d, "bad-op")
 
 /-- the core model answers only for programs of input/normal nodes without unordered groups -/
@@ -163,14 +192,62 @@ def stepCore (d : DS) (toks : List String) : DS × String :=
       | .error e => (d, "error " ++ toString (repr e))
   | _ => (d, "bad-op")
 
-partial def loop (h : IO.FS.Stream) (out : IO.FS.Stream) (core : Bool) (t : Toggles) (d : DS) : IO Unit := do
+/-- the program of the cycle model: inputs are constant nodes; `none` outside its fragment -/
+def cycProgram (d : DS) : Option Qbice.Cycle.Program :=
+  (d.exprs.zip d.kinds).zipIdx.mapM fun ((e, kind), k) =>
+    match kind with
+    | .input => (lookup k d.inputs).map fun v => { dflt := 0, prog := .ret v }
+    | .external => none
+    | _ => if e.cycFragment then some { dflt := (d.prog[k]?.map (·.dflt)).getD 0, prog := e.toCyc .ret } else none
+
+/-- fresh evaluation only: the first session and the rounds before the second session -/
+def stepCyc (d : DS) (toks : List String) : DS × String :=
+  match toks with
+  | "case" :: _ => ({ unordered := toks.contains "unordered" }, "case")
+  | "node" :: k :: kind :: dflt :: rest =>
+    match k.toNat?, parseKind kind, dflt.toInt?, parseExpr rest with
+    | some k, some kind, some dflt, some (e, []) =>
+      if k != d.prog.length then (d, "bad-op") else
+      ({ d with prog := d.prog ++ [{ kind := kind, dflt := dflt, prog := e.toProg .ret }], exprs := d.exprs ++ [e],
+                kinds := d.kinds ++ [kind] }, "ok")
+    | _, _, _, _ => (d, "bad-op")
+  | "session" :: rest =>
+    if !d.cycOk || d.sessions > 0 then ({ d with cycOk := false }, "skip") else
+    match parseWrites rest with
+    | none => (d, "bad-op")
+    | some ws =>
+      let sets := ws.filterMap fun | .set k v => some (k, v) | _ => none
+      if sets.length != ws.length then ({ d with cycOk := false }, "skip") else
+      let (inputs, out) := sets.foldl (fun (acc : List (Nat × Int) × List String) (kv : Nat × Int) =>
+        let r := match lookup kv.1 acc.1 with
+          | none => "Fresh"
+          | some o => if o = kv.2 then "Unchanged" else "Updated"
+        (upsert kv.1 kv.2 acc.1, acc.2 ++ [r])) (d.inputs, [])
+      ({ d with inputs := inputs, sessions := 1 }, " ".intercalate out ++ " |")
+  | "round" :: rest =>
+    if !d.cycOk then (d, "skip") else
+    match rest.mapM String.toNat?, cycProgram d with
+    | none, _ => (d, "bad-op")
+    | _, none => ({ d with cycOk := false }, "skip")
+    | some ks, some cp =>
+      match Qbice.Cycle.evalRoots cp (Qbice.Cycle.fuelFor cp) ks d.cyst with
+      | .ok (vs, st) =>
+        let fresh := (st.memo.take (st.memo.length - d.cyst.memo.length)).map (·.key)
+        let execs := fresh.filter fun k => d.kinds[k]? != some Kind.input
+        ({ d with cyst := st }, " ".intercalate (vs.map toString) ++ " |" ++ execsStr false execs)
+      | .error .outOfFuel => ({ d with cycOk := false }, "crash outOfFuel")
+      | .error .deadlock => ({ d with cycOk := false }, "crash hang")
+      | .error _ => ({ d with cycOk := false }, "crash panic")
+  | _ => (d, "bad-op")
+
+partial def loop (h : IO.FS.Stream) (out : IO.FS.Stream) (core : Bool) (cyc : Bool) (msg : Bool) (t : Toggles) (d : DS) : IO Unit := do
   let line ← h.getLine
   if line.isEmpty then return ()
   let toks := (line.trimAscii.toString.splitOn " ").filter (· ≠ "")
-  let (d', o) := if core then stepCore d toks else stepFull t d toks
+  let (d', o) := if core then stepCore d toks else if cyc then stepCyc d toks else stepFull t msg d toks
   out.putStrLn o
-  loop h out core t d'
+  loop h out core cyc msg t d'
 
 def main (args : List String) : IO Unit := do
-  let t : Toggles := { f1 := args.contains "f1", f2 := args.contains "f2", f3 := args.contains "f3", f14 := args.contains "f14", f16 := args.contains "f16", desc := args.contains "desc" }
-  loop (← IO.getStdin) (← IO.getStdout) (args.contains "core") t {}
+  let t : Toggles := { f1 := args.contains "f1", f2 := args.contains "f2", f3 := args.contains "f3", f14 := args.contains "f14", f16 := args.contains "f16", f21 := args.contains "f21", f22 := args.contains "f22", desc := args.contains "desc" }
+  loop (← IO.getStdin) (← IO.getStdout) (args.contains "core") (args.contains "cyc") (args.contains "msg") t {}
